@@ -150,9 +150,11 @@ CLAIMS = {
         "the coefficient alone; ShiftL/ShiftR move only the scale by exactly the shift (no silent wrap: out-of-range exponents are the documented "
         "panic, a precondition here); Truncate keeps exactly the requested number of leading digits of the coefficient, counts the sign as no "
         "digit, adds the dropped digit count to the exponent, and returns a value with no more digits than requested unchanged.",
-        "Not decided: Decimal.String / ParseDecimal and their round trip including negative zero (string building through fmt/strings.Builder/"
-        "strconv is outside the generator's subset), trunc/round. math/big is the trusted integer model (Exp and the digit string are "
-        "uninterpreted functions with the stated laws), so 'exact' is exactness of the integer expressions at the common scale.",
+        "Decimal.String: which of the three layouts is chosen, the trailing point of integers, negative zero as -0, the sign never separated from "
+        "the first digit, the position of the point inside the digits (strings.Builder through a ghost model). "
+        "Not decided: ParseDecimal and the String/ParseDecimal round trip (strconv and fmt are outside the generator's subset), the digits after "
+        "the exponent marker, trunc/round. math/big is the trusted integer model (Exp and the digit string are uninterpreted functions with the "
+        "stated laws), so 'exact' is exactness of the integer expressions at the common scale.",
         "DESIGN.md section 7 C14"),
     "C15": (
         "Binary timestamps: timestampLen equals the bytes appendTimestamp appends for every field combination (offset or unknown offset, year, "
